@@ -158,3 +158,18 @@ Fixpoint lookup_ir_nth (n : nat) (name : string) (l : list (string * list cop)) 
                     else lookup_ir_nth n name r
   end.
 Definition lookup_ir := lookup_ir_nth 0.
+
+(* ---- schedule execution for the replay against the real headers *)
+Definition all_tids (s : st) : list tid :=
+  TDestroy :: map TWorker (seq 0 (length (workers s))) ++ map TProd (seq 0 (length (prods s))).
+Definition enabled_tids (s : st) : list tid :=
+  filter (fun t => match step t s with Some _ => true | None => false end) (all_tids s).
+
+Fixpoint run_trace (sc : list tid) (s : st) : st * list (bool * list tid) :=
+  match sc with
+  | [] => (s, [])
+  | t :: r => match step t s with
+              | Some s' => let (s'', l) := run_trace r s' in (s'', (true, enabled_tids s') :: l)
+              | None => let (s'', l) := run_trace r s in (s'', (false, enabled_tids s) :: l)
+              end
+  end.
